@@ -13,6 +13,8 @@ def hasKey (d : Dict V) (k : String) : Bool := d.kv.any (·.1 == k)
 /-- `d[k] = v` : replace in place if present, else append -/
 def set (d : Dict V) (k : String) (v : V) : Dict V :=
   if d.hasKey k then ⟨d.kv.map fun e => if e.1 == k then (k, v) else e⟩ else ⟨d.kv ++ [(k, v)]⟩
+/-- the keys, in insertion order -/
+def keys (d : Dict V) : List String := d.kv.map (·.1)
 /-- `d.update(e)` -/
 def overlay (d e : Dict V) : Dict V := e.kv.foldl (fun acc kv => acc.set kv.1 kv.2) d
 end Dict
